@@ -64,6 +64,14 @@ def report(prop, tier, seed, results, registry, known, expected, head, dirty, wa
             known_hits.append(r["name"])
             continue
         was_discharged = exp.get(r["name"]) == "discharged"
+        all_opaque = all(g.get("opaque") for g in r["goals"] if g["verdict"] == "sat")
+        if not reproduced and all_opaque and registry[r["name"]].bounded is None:
+            # every refuted clause talks about reduction atoms / uninterpreted functions: the solver's model is a failure
+            # to prove, not an input, and neither it nor the concrete search over small inputs produced a failing input
+            r["status"] = "undecided"
+            r["note"] = (r.get("note") or "") + " proof lost: refuted over opaque atoms only, no failing input found by the concrete search"
+            undecided.append(r)
+            continue
         if not reproduced and not was_discharged and registry[r["name"]].bounded is None and not getattr(registry[r["name"]], "trust_refutation", False):
             # a refutation that neither replays on the real code nor contradicts an earlier proof: undecided
             r["status"] = "undecided"
